@@ -94,11 +94,42 @@ def library_oracle(rng):
     return problems
 
 
+def builtin_name_oracle():
+    """A user's file that merely has the name of a built-in library can be included after that library (D65: the
+    library's name lingered in the set of files being included)."""
+    import os, shutil, tempfile
+    from hera.data import Settings
+    from hera.parser import parse
+    root = tempfile.mkdtemp(prefix="hera_bi_")
+    cwd = os.getcwd()
+    try:
+        os.chdir(root)
+        open("Tiger-stdlib-stack-data.hera", "w").write("SET(R1, 1)\n")
+        text = '#include <Tiger-stdlib-stack-data.hera>\n#include "Tiger-stdlib-stack-data.hera"\nSET(R2, 2)\n'
+        open("m.hera", "w").write(text)
+        with fc.captured():
+            ops, msgs = parse(text, path="m.hera", settings=Settings())
+        tail = [str(o).replace(" ", "") for o in ops][-2:]
+        errs = [m for m, _ in msgs.errors]
+        if errs or tail != ["SET(R1,1)", "SET(R2,2)"]:
+            return [{"what": "a file called Tiger-stdlib-stack-data.hera included after the built-in library of that name: "
+                             "errors %r, last operations %r" % (errs, tail), "main": text}]
+    except BaseException as e:  # noqa
+        return [{"what": "built-in name scenario raised %s: %s" % (type(e).__name__, str(e)[:100])}]
+    finally:
+        os.chdir(cwd)
+        shutil.rmtree(root, ignore_errors=True)
+    return []
+
+
 def known_replays(ctx, findings):
     """D55: the library scenarios are the replay of the finding."""
     import random
     out = []
     for e in findings:
+        if e["id"] == "D65":
+            p = builtin_name_oracle()
+            out.append((e, bool(p), p[0]["what"] if p else None))
         if e["id"] == "D55":
             p = library_oracle(random.Random(0))
             out.append((e, bool(p), p[0]["what"] if p else None))
@@ -114,6 +145,7 @@ def correspondence(ctx, model_available=True):
     spec_failures += fc.parse_through_oracle(rng, 120 if quick else 2000)
     for _ in range(3 if quick else 40):
         spec_failures += library_oracle(rng)
+    spec_failures += builtin_name_oracle()
     disagreements = [{"what": "evaluate_ifdefs vs Model/Ifdef", **d} for d in res["disagreements"]]
     st = {"trees": 0, "files": 0, "includes": 0, "cyclic": 0, "missing": 0, "model_agree": 0}
     terms, wants, trees = [], [], []
